@@ -9,7 +9,7 @@ vars == <<st, act, nops>>
 \* names of 1, 2, 3, 4 and 40 letters (the record header grows from the 4th character on); a curated family of
 \* variables keeps the model finite and small: the state space is bounded by MaxScalars / MaxArrays, not by depth
 Long40 == [i \in 1..40 |-> 65 + (i % 26)]
-SVars == {<<<<65>>, "%">>, <<<<66, 67>>, "!">>, <<<<68, 69, 70>>, "#">>, <<<<71, 72, 73, 74>>, "$">>, <<Long40, "%">>, <<<<65>>, "$">>}
+SVars == {<<<<65>>, "%">>, <<<<66, 67>>, "!">>, <<<<68, 88, 70>>, "#">>, <<<<71, 72, 73, 74>>, "$">>, <<Long40, "%">>, <<<<65>>, "$">>}
 AVars == {<<<<80>>, "%", <<1>>>>, <<<<80>>, "$", <<2, 1>>>>, <<<<81, 82, 83, 84, 85>>, "#", <<1>>>>, <<<<81, 82, 83, 84, 85>>, "!", <<1, 1>>>>}
 Enc(t, k) == [i \in 1..Size(t) |-> 16 * k + i]
 Ks == {1, 2}
@@ -39,6 +39,9 @@ Next == /\ nops < MaxOps
         /\ nops' = nops + 1
 Spec == Init /\ [][Next]_vars
 View == st
+\* for depth-bounded runs (emit): with several workers a state could otherwise be first reached on a longer path and
+\* not be expanded
+ViewD == <<st, nops>>
 
 FaithfulInv == Faithful(st)
 TilesInv == Tiles(st)
